@@ -33,8 +33,14 @@ type T struct {
 	f func() string
 }
 
+type Namer interface {
+	M() string
+}
+
 var keep int
 var reinit = 10
+var anyv any
+var named Namer
 var capF func() string
 var inst *T
 var bound func() string
@@ -56,7 +62,7 @@ func helper() string {
 func Main() {
 	fmt.Println(F(), (&T{}).M(), helper())
 	keep++
-	fmt.Println(keep, reinit)
+	fmt.Println(keep, reinit, anyv, named == nil)
 	reinit++
 }
 
@@ -79,6 +85,8 @@ func UseCaptured() {
 func Bump() {
 	keep++
 	reinit++
+	anyv = keep
+	named = &T{n: keep}
 }
 
 func Yielding() {
@@ -97,6 +105,8 @@ var c17events = []string{"Load(v0)", "Load(v1)", "Load(v2)", "Main", "Capture", 
 type c17ref struct {
 	ver, keep, reinit int
 	captured          bool
+	anyv              string // printed form of the any-typed variable
+	namedSet          bool
 }
 
 // step returns the expected stdout of the event.
@@ -111,7 +121,10 @@ func (s *c17ref) step(ev int) string {
 	case ev == 3:
 		out := fmt.Sprintf("%s %s %s-%s\n", tag(), mt(), tag(), mt())
 		s.keep++
-		out += fmt.Sprintf("%d %d\n", s.keep, s.reinit)
+		if s.anyv == "" {
+			s.anyv = "nil"
+		}
+		out += fmt.Sprintf("%d %d %s %v\n", s.keep, s.reinit, s.anyv, !s.namedSet)
 		s.reinit++
 		return out
 	case ev == 4:
@@ -125,6 +138,8 @@ func (s *c17ref) step(ev int) string {
 	case ev == 6:
 		s.keep++
 		s.reinit++
+		s.anyv = fmt.Sprint(s.keep)
+		s.namedSet = true
 		return ""
 	default:
 		out := tag() + "\n"
